@@ -933,6 +933,11 @@ class Exec:
     def loop_concrete(self, s, st, k, L, guard, post_iter):
         a = self.args_ns
         if L is not None:
+            try:
+                self.env(st, L, a)
+            except RoleMissing:
+                L = None  # invariant not applicable to this source: run without monitoring
+        if L is not None:
             e0 = self.env(st, L, a)
             for g, init in L.ghosts.items():
                 st.ghosts[g] = init(e0)
